@@ -132,7 +132,9 @@ def _geometry(mod):
     """Es, d_min and the mean number of nearest neighbours of the emitted
     constellation (k-d tree, independent of the library)."""
     from scipy.spatial import cKDTree
-    c = np.asarray(mod.symbols).astype(complex).ravel()
+    # what the modulator EMITS for every label (not the table it keeps)
+    c = np.asarray(mod.modulate(np.arange(int(mod.M)))).astype(
+        complex).ravel()
     pts = np.column_stack([c.real, c.imag])
     tree = cKDTree(pts)
     d, _ = tree.query(pts, k=2)
@@ -294,6 +296,17 @@ def _check_curves(mod, cfg, values, form, L, ctx, do_exact, tags):
         "SE(no packet length) != log2(M)(1-BER) (%s)" % where, tags)
     # 5. SER from the geometry of the emitted constellation
     es, dmin, nbar = _geometry(mod)
+    # the formulas count a fixed neighbour structure: 1 nearest neighbour
+    # for two points, 2 for every PSK point, 4(1-1/sqrt(M)) on average on a
+    # square lattice -- the EMITTED constellation must have it
+    want = 1.0 if M == 2 else (2.0 if cls in ("PSK", "QPSK") else
+                               4.0 * (1.0 - 1.0 / math.sqrt(M)))
+    ctx.err("neighbour_structure", abs(nbar - want), 1e-9)
+    if abs(nbar - want) > 1e-9:
+        raise Violation("neighbour_structure", "the emitted constellation "
+                        "has on average %.6g nearest neighbours at d_min="
+                        "%.6g, the error rate formula of %s(M=%d) assumes "
+                        "%.6g" % (nbar, dmin, cls, M, want), tags)
     ref = np.array([_ser_from_geometry(cls, es, dmin, nbar, s)
                     for s in snr_lin])
     # tolerance: 1e-9 relative on the Q-function ARGUMENT (d_min measured
